@@ -286,14 +286,14 @@ func TestSim(t *testing.T) {
 					fmt.Fprintf(jf, "SHRINK %d\n", idx)
 				}
 			}
-			start := c
+			start, startRes := c, res
 			if res.Pinned != nil {
 				w.Reset()
 				if pr := sc.Exec(w, res.Pinned, prop); pr.first(prop) != nil && pr.first(prop).Predicate == v.Predicate {
-					start = res.Pinned
+					start, startRes = res.Pinned, pr
 				}
 			}
-			min, minRes, steps := shrinkCase(w, sc, start, prop, v.Predicate)
+			min, minRes, steps := shrinkCase(w, sc, start, prop, v.Predicate, startRes)
 			mv := minRes.first(prop)
 			if what, isKnown := known[knownKey(mv.Property, mv.Predicate, mv.Signature)]; isKnown {
 				out.KnownCount++
@@ -338,9 +338,11 @@ func firstDiff(a, b []string) string {
 
 // shrinkCase greedily applies one-step simplifications while the same
 // predicate of the same property keeps failing.
-func shrinkCase(w *World, sc Scenario, c any, prop, pred string) (any, *Result, int) {
-	w.Reset()
-	best := sc.Exec(w, c, prop)
+func shrinkCase(w *World, sc Scenario, c any, prop, pred string, first *Result) (any, *Result, int) {
+	// `first` is the failing result already in hand. The case is not re-executed here: a
+	// system under test with uncontrolled nondeterminism (say, a change that ranges over a
+	// Go map) may not fail again, and the violation that was observed must not be lost.
+	best := first
 	steps, attempts := 0, 0
 	const maxAttempts = 600
 	for progress := true; progress && attempts < maxAttempts; {
